@@ -67,6 +67,15 @@ Theorem c_big_single_signed :
 Proof. exact c_big_single_signed_lemma. Qed.
 Print Assumptions c_big_single_signed.
 
+(* and for a message whose only signal is a big-endian f32 / f64 (bit patterns) *)
+Theorem c_big_single_float :
+  forall fid p v, is_big p = true -> pstart p = 0 ->
+    (kind_of p = KF32 /\ plen p = 32 /\ 0 <= v < 2 ^ 32 \/ kind_of p = KF64 /\ plen p = 64 /\ 0 <= v < 2 ^ 64) ->
+    let f := c_encode_msg fid [p] [v] in
+    cf_word f = bswap (plen p) v /\ c_decode_msg [p] f = [v].
+Proof. exact c_big_single_float_lemma. Qed.
+Print Assumptions c_big_single_float.
+
 (* the byte swaps are involutions on their ranges *)
 Theorem c_swaps_are_involutions :
   (forall x, 0 <= x < 65536 -> bswap16 (bswap16 x) = x) /\ (forall x, 0 <= x < 2 ^ 32 -> bswap32 (bswap32 x) = x) /\
